@@ -31,7 +31,7 @@ impl Prop for C12 {
         }
     }
     fn rule(&self) -> &'static str {
-        "one run = one generated program executed honestly; the auxiliary segment is built under seeded non-degenerate challenges (twice, with two independent challenge sets) and every running-product / running-sum column must start and end (last non-random row) at its specified value: p1, p3 1->1; p2 program-hash row -> 1; stack overflow column per inputs/outputs; b_range 1->1; chiplets virtual table and bus 1->1 (with a kernel: see DESIGN). In addition the range checker is recounted literally: the multiset of values requested by u32-operation rows (helper registers) and memory rows (d0, d1) of the stored trace must equal the multiset given by the range checker's (value, multiplicity) rows. Non-trivial = execution succeeded and the columns were built; distinct = digest of (source, inputs, advice, challenges)."
+        "one run = one generated program (G_all swarm, or in 1 run of 12 standard-library procedures on random operands) executed honestly; the auxiliary segment is built under seeded non-degenerate challenges (twice, with two independent challenge sets) and every running-product / running-sum column must start and end (last non-random row) at its specified value: p1, p3 1->1; p2 program-hash row -> 1; stack overflow column per inputs/outputs; b_range 1->1; chiplets virtual table and bus 1->1 (with a kernel: see DESIGN). In addition the range checker is recounted literally: the multiset of values requested by u32-operation rows (helper registers) and memory rows (d0, d1) of the stored trace must equal the multiset given by the range checker's (value, multiplicity) rows. Non-trivial = execution succeeded and the columns were built; distinct = digest of (source, inputs, advice, challenges)."
     }
     fn generate(&self, rng: &mut Rng, _tier: Tier, _index: u64) -> Value {
         if rng.chance(1, 40) {
@@ -42,6 +42,11 @@ impl Prop for C12 {
                 format!("begin push.9.{}.78 padw padw padw push.1 rcomb_base end", (1u64 << 32) + 77)
             };
             return json!({"prog": {"source": src, "stack_inputs": [], "advice_stack": []}, "knobs": pop::knobs(rng), "challenges": pop::challenges(rng), "challenges_2": pop::challenges(rng)});
+        }
+        if rng.chance(1, 12) {
+            let mut sc = pop::stdlib_scenario(rng);
+            sc["challenges_2"] = json!(pop::challenges(rng));
+            return sc;
         }
         let mut cfg = GenCfg::swarm(rng);
         if rng.chance(1, 2) {
